@@ -81,10 +81,14 @@ class GenericSDE(nn.Module):
         return r.reshape((-1,) + (1,) * (ndim - 1))
 
     def f(self, t, y):
+        if self.spec.get("f_alias"):
+            return y                       # dY = Y dt: the drift returns its input tensor itself (no fresh tensor)
         return self._row(y, 2) * self.fscale * (torch.tanh(y @ self.fW1 + self.fb1 + self.tdep * t * self.fc1) @ self.fW2
                                                 + self.fb2)
 
     def h(self, t, y):
+        if self.spec.get("h_alias"):
+            return y                       # prior drift h(t, y) = y, returned as the input tensor itself
         return torch.tanh(y @ self.hW + self.hb) * 0.7
 
     def g(self, t, y):
@@ -197,6 +201,9 @@ def dyadic_grid(draw, max_log2_steps=6):
     """(t0, dt, nsteps): dyadic dt and t0 so that t0 + k*dt is exact in floating point."""
     k = draw(st.integers(1, 7))
     dt = 2.0 ** -k
+    if draw(st.sampled_from([False, False, False, True])):
+        # a step with one extra low bit: every t0 + j*dt is still exact in float64, but dt is not representable in float32
+        dt = dt + 2.0 ** -40
     t0 = draw(st.integers(-8, 8)) * dt
     if draw(st.sampled_from([False, False, False, True])):
         # a start time with many significant bits (a multiple of 2^-36: still exact in float64 together with k*dt, but not
